@@ -340,10 +340,119 @@ pub fn run(ctx: &Ctx) -> (Outcome, String, Option<bool>) {
             r
         },
     );
-    let rule = "For every batch of >=2 transactions met in generated histories (independent, chains, fan-in/fan-out, repeated, mutated; acceptable and unacceptable), from the state it was generated for: every permutation (all n! for n<=4, otherwise identity, reverse and 22 pseudo-random ones) x rayon pools of 1 and 4 threads; (accepted?, header of apply_tx_batch(perm).seal(None)) must be identical for all, and - when accepted - equal to applying the transactions one at a time in an order where parents precede children. Every sealed block with >=2 transactions is re-validated by its parent through apply_block under 8 differently built HashSets (fresh RandomState, rotated/reversed insertion) on alternating pool sizes and must give the same result. Before a batch is applied, variants of it with the same signature-free bodies but stripped / bit-flipped signatures are judged on a scratch copy; they are judged again after the properly signed batch has been validated and must get the same verdict (the outcome may not depend on what the process validated earlier). Non-trivial = a set with a dependency for which a tested permutation puts a child before its parent; distinct by (pre-state coin root, set of transaction hashes).".to_string();
+    let mut out = out;
+    if ctx.thorough() {
+        let o = cross_process(ctx, 48);
+        out.absorb(o);
+    }
+    let rule = "For every batch of >=2 transactions met in generated histories (independent, chains, fan-in/fan-out, repeated, mutated; acceptable and unacceptable), from the state it was generated for: every permutation (all n! for n<=4, otherwise identity, reverse and 22 pseudo-random ones) x rayon pools of 1 and 4 threads; (accepted?, header of apply_tx_batch(perm).seal(None)) must be identical for all, and - when accepted - equal to applying the transactions one at a time in an order where parents precede children. Every sealed block with >=2 transactions is re-validated by its parent through apply_block under 8 differently built HashSets (fresh RandomState, rotated/reversed insertion) on alternating pool sizes and must give the same result. Before a batch is applied, variants of it with the same signature-free bodies but stripped / bit-flipped signatures are judged on a scratch copy; they are judged again after the properly signed batch has been validated and must get the same verdict (the outcome may not depend on what the process validated earlier). Thorough tier only: 48 generated histories are additionally executed in two fresh child processes each (own hash seeds, nothing validated before) and must give the same accept/reject sequence and header hashes as in the warmed-up parent process. Non-trivial = a set with a dependency for which a tested permutation puts a child before its parent; distinct by (pre-state coin root, set of transaction hashes).".to_string();
     (out, rule, None)
 }
 
 pub fn replay(case: &serde_json::Value) -> Check {
     super::hist::replay_history(case, &profile(), C03::new(200))
+}
+
+/// Records what a history does: accept/reject of every batch and the header hash of every sealed block.
+#[derive(Default)]
+pub struct Recorder {
+    pub log: Vec<String>,
+}
+
+impl Monitor for Recorder {
+    fn on_batch(&mut self, _w: &World, ob: &BatchObs, _st: &mut Stats) -> Check {
+        self.log.push(match ob.outcome {
+            crate::world::Outcome::Ok(()) => "batch:accepted".into(),
+            crate::world::Outcome::Rejected(_) => "batch:rejected".into(),
+            crate::world::Outcome::Panicked(_) => "batch:panicked".into(),
+        });
+        Ok(())
+    }
+    fn on_seal(&mut self, _w: &World, ob: &SealObs, _st: &mut Stats) -> Check {
+        self.log.push(format!("seal:{}", hex::encode(ob.sealed.header().hash().0)));
+        Ok(())
+    }
+}
+
+pub fn record_plan(plan: &crate::plan::Plan, shard: usize) -> Vec<String> {
+    let mut r = Recorder::default();
+    let mut st = Stats::default();
+    let _ = crate::plan::run_plan(plan, &profile(), &mut r, &mut st, shard);
+    r.log
+}
+
+/// Thorough tier: the same histories are executed in this (warmed-up) process and in fresh child processes
+/// (own hash seeds, nothing validated before) and must produce the same accept/reject decisions and headers.
+pub fn cross_process(ctx: &Ctx, n_plans: usize) -> Outcome {
+    use proptest::strategy::{Strategy, ValueTree};
+    use proptest::test_runner::{Config, RngAlgorithm, TestRng, TestRunner};
+    let mut out = Outcome::empty();
+    let seed = blake3::hash(format!("c03-cross-process-{}", ctx.seed).as_bytes());
+    let mut runner = TestRunner::new_with_rng(Config::default(), TestRng::from_seed(RngAlgorithm::ChaCha, seed.as_bytes()));
+    let prof = profile();
+    let exe = match std::env::current_exe() {
+        Ok(e) => e,
+        Err(_) => return out,
+    };
+    let dir = crate::evidence::verif_root().join("replays").join("C03").join("cross-process-tmp");
+    let _ = std::fs::create_dir_all(&dir);
+    for i in 0..n_plans {
+        let plan = match crate::plan::arb_plan(&prof).new_tree(&mut runner) {
+            Ok(t) => t.current(),
+            Err(_) => continue,
+        };
+        let here = std::thread::Builder::new()
+            .name("s210".into())
+            .stack_size(256 << 20)
+            .spawn({
+                let plan = plan.clone();
+                move || record_plan(&plan, 210)
+            })
+            .unwrap()
+            .join()
+            .unwrap_or_default();
+        let f = dir.join(format!("plan-{}.json", i));
+        if std::fs::write(&f, serde_json::to_vec(&plan).unwrap()).is_err() {
+            continue;
+        }
+        out.stats.evals += 1;
+        let mut agree = true;
+        for _ in 0..2 {
+            let o = std::process::Command::new(&exe).arg("exec-plan").arg("C03").arg(&f).output();
+            let there: Vec<String> = match o {
+                Ok(o) if o.status.success() => serde_json::from_slice(&o.stdout).unwrap_or_default(),
+                _ => {
+                    out.stats.exclude("child-process-failed");
+                    continue;
+                }
+            };
+            if there != here {
+                agree = false;
+                let first = here.iter().zip(there.iter()).position(|(a, b)| a != b).unwrap_or(here.len().min(there.len()));
+                let viol = crate::evidence::Violation::new(
+                    "result-differs-between-processes",
+                    format!(
+                        "the same history gives different results in this process and in a fresh one, first at step {}: here {:?}, there {:?}",
+                        first,
+                        here.get(first),
+                        there.get(first)
+                    ),
+                );
+                let body = serde_json::json!({"property": "C03", "seed": ctx.seed, "tier": ctx.tier, "phase": "cross-process", "signature": viol.signature, "detail": viol.detail, "case": plan});
+                let p = crate::evidence::write_replay("C03", &viol.signature, &body);
+                out.violations.push((viol, p));
+                break;
+            }
+        }
+        if agree && here.iter().filter(|l| l.starts_with("seal:")).count() >= 2 {
+            out.stats.nontrivial(h64(here.join("|").as_bytes()));
+            out.stats.class("history-identical-in-two-fresh-processes");
+        }
+        let _ = std::fs::remove_file(&f);
+        if !out.violations.is_empty() {
+            break;
+        }
+    }
+    let _ = std::fs::remove_dir_all(&dir);
+    out
 }
